@@ -304,6 +304,8 @@ func namePrograms() []prog {
 		pj.F("request_id", 2, pj.String).WithJSON("x-request-id"),
 		pj.F("user_agent", 3, pj.String).WithJSON("user-agent"),
 	})
+	// a JSON name longer than every proto name of its message (and one shorter than every proto name)
+	mk("explicit-json-longer-than-any-name", []*pj.Field{pj.F("id", 1, pj.Int32).WithJSON("identifier"), pj.F("tag", 2, pj.String), pj.F("cnt", 3, pj.Int64).WithJSON("c")})
 	mk("explicit-json-punctuation", []*pj.Field{
 		pj.F("a_dash", 1, pj.Int32).WithJSON("a-b"), pj.F("a_dot", 2, pj.Int32).WithJSON("a.b"), pj.F("a_sp", 3, pj.Int32).WithJSON("a b"),
 		pj.F("a_tilde", 4, pj.Int32).WithJSON("a~b"), pj.F("a_bang", 5, pj.Int32).WithJSON("a!b"), pj.F("a_slash", 6, pj.Int32).WithJSON("a/b"),
